@@ -115,6 +115,8 @@ impl Crypto {
         let mut algos = Algorithms { algorithm_speeds: smallvec![], allow_unencrypted: unencrypted };
         let duration = Duration::from_secs_f32(SPEED_TEST_TIME);
         let mut speeds = Vec::new();
+        #[cfg(dswd_vpncloud_verif)]
+        let allowed_algos = verif::apply_speed_override(allowed_algos, &mut algos);
         for algo in allowed_algos {
             let speed = test_speed(algo, &duration);
             algos.algorithm_speeds.push((algo, speed as f32));
@@ -431,6 +433,84 @@ impl<P: Payload> PeerCrypto<P> {
 pub fn is_init_message(msg: &[u8]) -> bool {
     // HOT PATH
     !msg.is_empty() && msg[0] == INIT_MESSAGE_FIRST_BYTE
+}
+
+#[cfg(dswd_vpncloud_verif)]
+pub mod verif {
+    //! Verification hooks (speed seam, state view). Compiled only with --cfg dswd_vpncloud_verif.
+    use super::*;
+    pub use crate::crypto::{
+        core::{create_dummy_pair, verif as core, CryptoCore},
+        init::{
+            verif as init_verif, InitMsg, InitResult, InitState, CLOSING, MAX_FAILED_RETRIES, STAGE_PENG,
+            STAGE_PING, STAGE_PONG, WAITING_TO_CLOSE,
+        },
+        rotate::{verif as rotate_verif, RotatedKey, RotationMessage, RotationState},
+    };
+    use std::cell::RefCell;
+
+    thread_local! {
+        static SPEED_OVERRIDE: RefCell<Option<[f32; 3]>> = RefCell::new(None);
+    }
+
+    /// While set, `Crypto::new` on this thread skips the benchmark and reports these speeds for
+    /// (AES128, AES256, CHACHA20).
+    pub fn set_speed_override(speeds: Option<[f32; 3]>) {
+        SPEED_OVERRIDE.with(|s| *s.borrow_mut() = speeds)
+    }
+
+    pub(super) fn apply_speed_override(
+        allowed: Vec<&'static aead::Algorithm>, algos: &mut Algorithms,
+    ) -> Vec<&'static aead::Algorithm> {
+        if let Some(speeds) = SPEED_OVERRIDE.with(|s| *s.borrow()) {
+            for algo in allowed {
+                let idx = init_verif::algorithm_id(algo) as usize - 1;
+                algos.algorithm_speeds.push((algo, speeds[idx]));
+            }
+            vec![]
+        } else {
+            allowed
+        }
+    }
+
+    #[derive(Clone, Debug, PartialEq, Eq, Hash)]
+    pub struct PeerCryptoView {
+        pub init: Option<init_verif::InitView>,
+        pub rotation: Option<rotate_verif::RotationView>,
+        pub unencrypted: bool,
+        pub core: Option<core::CoreView>,
+        pub rotate_counter: usize,
+    }
+
+    impl<P: Payload> PeerCrypto<P> {
+        pub fn verif_state(&self) -> PeerCryptoView {
+            PeerCryptoView {
+                init: self.init.as_ref().map(|i| i.verif_state()),
+                rotation: self.rotation.as_ref().map(|r| r.verif_state()),
+                unencrypted: self.unencrypted,
+                core: self.core.as_ref().map(|c| c.verif_state()),
+                rotate_counter: self.rotate_counter,
+            }
+        }
+
+        pub fn verif_core_mut(&mut self) -> Option<&mut CryptoCore> {
+            self.core.as_mut()
+        }
+    }
+
+    impl Crypto {
+        pub fn verif_algorithms(&self) -> &Algorithms {
+            &self.algorithms
+        }
+
+        pub fn verif_trusted_keys(&self) -> &[Ed25519PublicKey] {
+            &self.trusted_keys
+        }
+
+        pub fn verif_key_pair(&self) -> Arc<Ed25519KeyPair> {
+            self.key_pair.clone()
+        }
+    }
 }
 
 #[cfg(test)]
